@@ -35,7 +35,7 @@ import (
 func init() { families["json"] = famJSON }
 
 // the nil Commands / nil BindToParentToken values ("body":null) are generated only when true
-const jsonF4Repaired = false
+const jsonF4Repaired = true
 
 var jRunes = []rune{0, 1, '\t', '\n', ' ', '"', '\\', '/', '<', '>', '&', '\'', 'a', 'b', 'Z', '0', '*', 'r', 'w', 0x7f,
 	0x80, 0xe9, 0x7ff, 0x800, 0x2028, 0x2029, 0x20ac, 0xd7ff, 0xe000, 0xfffd, 0xfffe, 0xffff, 0x10000, 0x1f600, 0x10ffff}
@@ -727,16 +727,20 @@ func famJSONNames(r *Rng, o *Out) {
 	o.emit("(json.names)", strings.Join(parts, ","))
 
 	// typeof: the type a name is read as = the CaveatType of the value UnmarshalJSON allocates for
-	// it (allocated before the body is looked at, so it is observable even when the body does not fit)
+	// it; the body is null, which fits every type and leaves its zero value (since the repair of F4
+	// the value is stored only after its body was read)
 	typeOf := func(name string) string {
 		return guard(func() string {
 			nb, _ := json.Marshal(name)
-			var cs macaroon.CaveatSet
-			_ = json.Unmarshal([]byte(`[{"type":`+string(nb)+`,"body":{}}]`), &cs)
-			if len(cs.Caveats) != 1 || cs.Caveats[0] == nil {
-				return "none"
+			// (a type with its own UnmarshalJSON may refuse null: try a few bodies)
+			for _, body := range []string{"null", "{}", `"0"`, "0", "[]"} {
+				var cs macaroon.CaveatSet
+				_ = json.Unmarshal([]byte(`[{"type":`+string(nb)+`,"body":`+body+`}]`), &cs)
+				if len(cs.Caveats) == 1 && cs.Caveats[0] != nil {
+					return fmt.Sprint(uint64(cs.Caveats[0].CaveatType()))
+				}
 			}
-			return fmt.Sprint(uint64(cs.Caveats[0].CaveatType()))
+			return "none"
 		})
 	}
 	probe := []string{"", " ", "abc", "organization", "Organization ", "0", "00", "012", "12", "+5", "-1", "1_0", "1e3", "0x10", "٣",
